@@ -22,3 +22,65 @@ pub fn tracing_relation(wm: &WMsk, id: &[Vec<u8>]) -> Result<(), String> {
     }
     Ok(())
 }
+
+use super::hist::*;
+use super::Meta;
+use crate::report::{CheckResult, Collector};
+use crate::Ctx;
+
+fn profile(thorough: bool) -> Profile {
+    Profile {
+        keygen: 16,
+        refresh: 16,
+        rekey: 8,
+        roundtrip: 12,
+        stale: 10,
+        forged: 3,
+        encaps_for: 6,
+        check: 3,
+        prune: 2,
+        bad_pct: 3,
+        min_ops: 1,
+        max_ops: if thorough { 50 } else { 25 },
+        max_dims: 2,
+        max_attrs: 3,
+        max_rights: 16,
+        ..Profile::zero()
+    }
+}
+
+fn nontrivial(o: &Outcome) -> bool {
+    o.events.contains("tracing-checked-after-refresh-or-roundtrip") || o.events.contains("stale-refresh-unknown-id")
+}
+
+const CLASSES: &[&str] = &["tracing-checked-after-refresh-or-roundtrip", "stale-refresh-unknown-id", "stale-refresh-known-id", "forged-refresh", "roundtrip", "rekeyed"];
+
+fn hc(thorough: bool) -> HistCheck<'static> {
+    HistCheck {
+        focus: "C17",
+        profile: profile(thorough),
+        nontrivial,
+        classes: CLASSES,
+        required: &["tracing-checked-after-refresh-or-roundtrip", "stale-refresh-unknown-id", "stale-refresh-known-id"],
+        reps: 1,
+        stream: 17,
+    }
+}
+
+pub fn run(ctx: &Ctx, col: &Collector) -> Meta {
+    let h = hc(ctx.thorough);
+    run_hist(ctx, col, &h, ctx.n(5000, 80_000));
+    if col.class_count("tracing-relation-checked") == 0 && !col.stopped() {
+        col.note("generator unhealthy: tracing relation never evaluated");
+    }
+    Meta {
+        level: "exploration",
+        rule: "random histories of key generation, refresh (both flags, after rekeys), master-key / user-key round-trips, and refreshes with older snapshots of the master key; after every generation, refresh and user-key round-trip, from the independently decoded master key, user key and public key: the key's marker vector is a member of the master key's user set, all registered vectors are pairwise distinct and as many as issued keys, sum(marker_i * tracer_i) equals the master binding scalar (recomputed with the curve library directly), every public tracer equals tracer_i * G, and the tracing points embedded in the user key and in the latest public key equal the public tracers; a key issued after a snapshot must be refused by that snapshot. Non-trivial = history in which the relation was checked after a refresh or round-trip, or a stale-snapshot refusal occurred; distinct by the whole case".into(),
+        exhaustive: false,
+        assumptions: vec!["scalar / point arithmetic is done with curve25519-dalek / p256 directly on the serialized bytes".into()],
+    }
+}
+
+pub fn replay(_kind: &str, case: &serde_json::Value, col: &Collector) -> CheckResult {
+    replay_hist(&hc(false), case, col)
+}
